@@ -60,13 +60,29 @@ PREFIXES = ('', ' ', chr(10), '<!-- c -->', '<?p q?>', '<?xml version="1.0"?>', 
 T_XML = parse_all({'frag': 'parse-xml-fragment($t)', 'doc': 'parse-xml($t)'})
 
 
-@ob(budget=60, tbudget=300, kind='hunt', bound='XML text = prefix (8 prolog variants chosen by the solver) + padding comment/PI of 0, 4 000, 70 000 or 140 000 characters + DOCTYPE declaring an internal entity + element using it: parse-xml and parse-xml-fragment must raise, never expand (expat is C code: bug-hunting only)',
+@ob(budget=60, tbudget=300, kind='hunt', bound='XML text = prefix (8 prolog variants chosen by the solver) + padding comment/PI of 0, 4 000, 70 000 or 140 000 characters + DOCTYPE declaring an internal entity + element using it; or an XML declaration with one of 5 multi-byte / unknown encodings, also on an lxml-backed context: parse-xml and parse-xml-fragment must raise ElementPathError, never expand (expat is C code: bug-hunting only)',
     funcs=['elementpath/xpath30/_xpath30_functions.py:parse-xml/parse-xml-fragment', 'elementpath/etree.py:defuse_xml'])
-def entities_rejected(pi: int, frag: bool, padk: int) -> bool:
+def entities_rejected(pi: int, frag: bool, padk: int, enc: int, lx: bool) -> bool:
     """
-    pre: 0 <= pi <= 7 and 0 <= padk <= 3
+    pre: 0 <= pi <= 7 and 0 <= padk <= 3 and 0 <= enc <= 5
     post: _
     """
+    if enc:
+        # an XML declaration naming an encoding (multi-byte encodings make expat fail before the DOCTYPE): with an lxml-backed context too
+        decl = '<?xml version="1.0" encoding="%s"?>' % ('Shift_JIS', 'EUC-JP', 'GBK', 'Big5', 'no-such-encoding')[enc - 1]
+        text = decl + '<!DOCTYPE d [<!ENTITY e "boom">]><d>&e;</d>'
+        root = None
+        if lx:
+            try:
+                import lxml.etree as _lx
+                root = _lx.fromstring('<a/>')
+            except ImportError:      # pragma: no cover
+                root = None
+        try:
+            T_XML['doc'].evaluate(XPathContext(root, variables={'t': text}) if root is not None else XPathContext(item=1, variables={'t': text}))
+        except ElementPathError:
+            return True
+        return False
     pad = ('', '<!--' + ' ' * 4000 + '-->', '<!--' + 'x' * 70000 + '-->', '<?p ' + 'y' * 140000 + '?>')[padk]    # prolog padding beyond 64 KiB / 128 KiB
     text = PREFIXES[pi] + pad + '<!DOCTYPE d [<!ENTITY e "boom">]><d>&e;</d>'
     try:
